@@ -69,8 +69,10 @@ func vStub_path_filepath_EvalSymlinks(path string) (string, error) {
 	return res, nil
 }
 
-var verifAbsTargets = []string{"/a", "/ab", "/a/b", "/b", "/", "/a/a", "/a/b/a"}
-var verifAllTargets = []string{"/a", "/ab", "/a/b", "/b", "/", "a", "ab", "a/b", "b", "a/a", "..", "../a"}
+// (including names that differ from another candidate only in letter case: on a case-sensitive
+// file system /A/b is not inside /a)
+var verifAbsTargets = []string{"/a", "/ab", "/a/b", "/b", "/", "/a/a", "/a/b/a", "/A", "/A/b"}
+var verifAllTargets = []string{"/a", "/ab", "/a/b", "/b", "/", "a", "ab", "a/b", "b", "a/a", "..", "../a", "/A/b", "A/b"}
 
 func vStub_os_ReadFile(name string) ([]byte, error) {
 	verifReads = append(verifReads, name)
